@@ -11,6 +11,13 @@ CONSTRUCTS = {
  'inherit_from': "{\n  inherit (p) a b;\n}", 'string': "\"s${x}t\"",
  'if_multi': "if c then\n  t\nelse\n  e", 'if_chain': "if c then\n  t\nelse if d then\n  u\nelse\n  e", 'with_multi': "with p;\nx", 'assert_multi': "assert c;\nx", 'lambda_nl': "x:\nx",
  'call_multi': "f\n  x\n  y", 'binary_multi': "a\n+ b", 'inherit_multi': "{\n  inherit\n    a\n    b\n    ;\n}",
+ # body family (third round of seeds): heads whose body is an "absorbable" term — list, set, indented string, parenthesis, call
+ 'with_list': "with p; [ a ]", 'with_set': "with p; { a = 1; }", 'with_istr': "with p; ''s''", 'with_paren': "with p; ([ a ])", 'with_call': "with p; f a",
+ 'with_multi_list': "with p;\n[\n  a\n]", 'assert_list': "assert c; [ a ]", 'assert_set': "assert c; { a = 1; }",
+ 'lambda_list': "x: [ a ]", 'lambda_set': "x: { a = 1; }", 'lambda_formals_set': "{ a }: { b = a; }", 'let_set': "let\n  a = 1;\nin\n{ b = a; }", 'let_list': "let\n  a = 1;\nin\n[ a ]",
+ 'if_set': "if c then { a = 1; } else [ b ]", 'call_list': "f [ a ]", 'call_istr': "f ''s''", 'paren_set': "({ a = 1; })", 'paren_list': "([ a ])",
+ 'concat_list': "a ++ [ b ]", 'update_set': "a // { b = 1; }", 'formal_default_list': "{ a ? [ b ], ... }: a", 'formal_default_multi': "{\n  a ? [\n    b\n    c\n  ],\n  ...\n}:\na",
+ 'select_set': "{ a = 1; }.a", 'not_paren': "!(a b)", 'inherit_in_let': "let\n  inherit (p) a;\nin\na",
 }
 KINDS = {
  'sp': ' ', 'sp2': '   ', 'tab': '\t', 'nl': '\n', 'nl_ind': '\n    ', 'blank': '\n\n', 'blank3': '\n\n\n  ',
@@ -19,11 +26,13 @@ KINDS = {
  'eol_c_blank': ' # c\n\n', 'eol_b_blank': ' /* c */\n\n', 'own_c_two': '\n# c\n# d\n', 'blank_own_c': '\n\n# c\n', 'own_c_blank_after': '\n# c\n\n\n',
  'two_b': ' /* a */ /* b */ ', 'b_then_eol_c': ' /* a */ # b\n', 'two_own_b': '\n/* a */ /* b */\n',
  'tight_b': '/* c */', 'tight_eol_c': '# c\n', 'tight_b_sp': '/* c */ ',
+ # multi-line block comments whose continuation lines are indented LESS than the opener (third round of seeds)
+ 'ml_b_under': ' /* alpha\nbeta */ ', 'ml_b_under_own': '\n    /* title\n  body line\nlast */\n', 'ml_doc_under': ' /** alpha\n beta\nc */\n',
 }
 WS_KINDS = {'sp', 'sp2', 'tab', 'nl', 'nl_ind', 'blank', 'blank3'}
-LINE_LEVEL = {'eol_c', 'own_c', 'own_c_blank', 'own_b', 'ml_b', 'doc_b', 'hash_nospace', 'eol_c_blank', 'eol_b_blank', 'own_c_two', 'blank_own_c', 'own_c_blank_after', 'tight_eol_c'}       # comment alone on a line or at the end of one
+LINE_LEVEL = {'ml_b_under_own', 'eol_c', 'own_c', 'own_c_blank', 'own_b', 'ml_b', 'doc_b', 'hash_nospace', 'eol_c_blank', 'eol_b_blank', 'own_c_two', 'blank_own_c', 'own_c_blank_after', 'tight_eol_c'}       # comment alone on a line or at the end of one
 CONTEXTS = {'lambda_body': lambda e: 'x:\n' + e, 'top': lambda e: e, 'bindval': lambda e: "{\n  v = " + e.replace("\n", "\n  ") + ";\n}", 'listitem': lambda e: "[\n  " + e.replace("\n", "\n  ") + "\n]"}
-NOT_LIST_ITEMS = ('if_multi', 'if_chain', 'with_multi', 'assert_multi', 'lambda_nl', 'call_multi', 'binary_multi', 'call', 'with', 'assert', 'if', 'lambda_id', 'lambda_formals', 'lambda_formals_multi', 'lambda_at', 'lambda_at_pre', 'let', 'binary', 'chain', 'update', 'has_attr', 'not', 'neg', 'select_or', 'call_set')
+NOT_LIST_ITEMS = ('with_list', 'with_set', 'with_istr', 'with_paren', 'with_call', 'with_multi_list', 'assert_list', 'assert_set', 'lambda_list', 'lambda_set', 'lambda_formals_set', 'let_set', 'let_list', 'if_set', 'call_list', 'call_istr', 'concat_list', 'update_set', 'formal_default_list', 'formal_default_multi', 'not_paren', 'inherit_in_let', 'if_multi', 'if_chain', 'with_multi', 'assert_multi', 'lambda_nl', 'call_multi', 'binary_multi', 'call', 'with', 'assert', 'if', 'lambda_id', 'lambda_formals', 'lambda_formals_multi', 'lambda_at', 'lambda_at_pre', 'let', 'binary', 'chain', 'update', 'has_attr', 'not', 'neg', 'select_or', 'call_set')
 # ---- nesting family: every sequence of up to three wrappers around a leaf, each wrapper with names of its own depth ----
 WRAP = {
  'let': lambda i, e: 'let\n  v%d = %d;\nin\n%s' % (i, i, e), 'lam': lambda i, e: 'x%d: %s' % (i, e), 'formals': lambda i, e: '{ p%d }: %s' % (i, e),
